@@ -474,7 +474,11 @@ class ActiveTagValueProvider(UserDict):
         return self.use_value(value)
 
     def get(self, category, default=None):
-        value = self.data.get(category, default)
+        value = self.data.get(category, Unknown)
+        if value is Unknown:
+            # -- UNKNOWN CATEGORY: Return default as-is
+            #    (a callable default, like the Unknown class, is not a lazy value).
+            return default
         return self.use_value(value)
 
     def values(self):
@@ -515,7 +519,7 @@ class CompositeActiveTagValueProvider(ActiveTagValueProvider):
                 break
             # -- FOUND-CATEGORY or NOT-FOUND:
             if value is Unknown:
-                value = default
+                return default
 
         return self.use_value(value)
 
